@@ -61,7 +61,7 @@ func checkVal(t *rapid.T, f inst.Field, what string, got inst.E, want *big.Int) 
 }
 
 var unaryOps = []string{"Neg", "Double", "Square", "Inverse", "Halve", "MulBy3", "MulBy5", "MulBy13", "Sqrt", "Legendre", "LexLargest", "IsZeroOne", "Set", "Mul2ExpNegN", "SetUint64", "SetInt64"}
-var binaryOps = []string{"Add", "Sub", "Mul", "Div", "Cmp", "Equal", "Butterfly", "Select", "Exp"}
+var binaryOps = []string{"Add", "Sub", "Mul", "Div", "Cmp", "Equal", "Butterfly", "Select", "Exp", "MulRound"}
 
 func propUnary(t *rapid.T, f inst.Field) {
 	s := spec(f)
@@ -231,6 +231,21 @@ func propBinary(t *rapid.T, f inst.Field) {
 		if c != 0 {
 			want = yv
 		}
+	case "MulRound":
+		// operands whose Montgomery limbs put the first reduction round on a carry boundary of m*q
+		xv, yv, mc := s.MontRoundPair(t, "mr")
+		x, y = f.FromBig(xv), f.FromBig(yv)
+		key = fmt.Sprintf("%s MulRound(%s,%s)", f.Name(), xv.Text(16), yv.Text(16))
+		z.Mul(x, y)
+		checkVal(t, f, "Mul (round boundary) x*y", z, R.Mul(xv, yv))
+		z.Mul(y, x)
+		checkVal(t, f, "Mul (round boundary) y*x", z, R.Mul(xv, yv))
+		z.Square(x)
+		checkVal(t, f, "Square (round boundary)", z, R.Sqr(xv))
+		z.Div(x, y)
+		checkVal(t, f, "Div (round boundary)", z, R.Div(xv, yv))
+		rep.Case(test, key, true, op, mc)
+		return
 	case "Exp":
 		k, kc := gen.Int(t, f.Q(), rep.Scale(4*f.Q().BitLen(), 8*f.Q().BitLen()), "k")
 		key = fmt.Sprintf("%s Exp(%s,%s)", f.Name(), xv.Text(16), k.Text(16))
